@@ -1597,6 +1597,102 @@ pub fn run_c10(ctx: &Ctx) {
         viol(ctx, "WeightedTreeIndex", "f64", &s, "fixed", m, json!({"kind": "fixed"}));
     }
     ctx.eval(2);
+    // single-element trees with a zero weight (fresh, after update, after push onto empty)
+    fn one_zero<W: Wt>(ctx: &Ctx) {
+        let mut rng = VRng::from_env(ctx.seed ^ 0x51);
+        let zero = M::from_zero::<W>();
+        let mut cands: Vec<(WeightedTreeIndex<W>, &'static str)> = vec![];
+        if let Ok(t) = WeightedTreeIndex::<W>::new(vec![W::from_m(zero)]) {
+            cands.push((t, "new([0])"));
+        }
+        if let Ok(mut t) = WeightedTreeIndex::<W>::new(vec![W::from_m(M::one::<W>()), W::from_m(M::one::<W>())]) {
+            t.pop();
+            if t.update(0, W::from_m(zero)).is_ok() {
+                cands.push((t, "new([1,1]); pop(); update(0, 0)"));
+            }
+        }
+        if let Ok(mut t) = WeightedTreeIndex::<W>::new(Vec::<W>::new()) {
+            if t.push(W::from_m(zero)).is_ok() {
+                cands.push((t, "new([]); push(0)"));
+            }
+        }
+        for (t, how) in cands {
+            ctx.eval(1);
+            if let Some((s, m)) = tree_sample_check::<W>(&t, &[zero], &mut rng) {
+                viol(ctx, "WeightedTreeIndex", W::NAME, &s, "fixed", format!("{how}: {m}"), json!({"kind": "fixed", "how": how}));
+            } else if let Ok(Ok(i)) = catch(|| t.try_sample(&mut rng)) {
+                viol(ctx, "WeightedTreeIndex", W::NAME, "zero_weight_index", "fixed", format!("WeightedTreeIndex<{}> {how}: try_sample returned Ok({i}) for a tree whose only weight is zero", W::NAME), json!({"kind": "fixed", "how": how}));
+            }
+        }
+    }
+    for_all_wt!(one_zero(ctx));
+}
+
+impl M {
+    pub fn from_zero<W: Wt>() -> M {
+        if W::IS_FLOAT { M::F(0.0) } else { M::int(0) }
+    }
+    pub fn one<W: Wt>() -> M {
+        if W::IS_FLOAT { M::F(1.0) } else { M::int(1) }
+    }
+}
+
+/// C15: trees reached by update histories must round-trip too (equal value, identical sample sequence)
+pub fn serde_tree_histories(ctx: &Ctx) {
+    fn one<W: Wt + serde::Serialize + serde::de::DeserializeOwned>(ctx: &Ctx)
+    where
+        WeightedTreeIndex<W>: serde::Serialize + serde::de::DeserializeOwned,
+    {
+        let n = if ctx.thorough() { 4000 } else { 300 };
+        let mut r = BaseRng::from_env(hseed(&[ctx.seed, crate::rng::hstr(W::NAME), 0xC15]));
+        for k in 0..n {
+            let len = r.random_range(1..=40usize);
+            let muts = r.random_range(1..=40usize);
+            let ops = gen_history::<W>(&mut r, len, muts);
+            let (tree, model) = match state_from_history::<W>(&ops) {
+                Some(Ok(x)) => x,
+                _ => continue,
+            };
+            ctx.eval(1);
+            ctx.nontrivial(hseed(&[crate::rng::hstr(W::NAME), k as u64, 0x15]));
+            ctx.class(&format!("tree_after_history:{}", W::NAME), 1);
+            let fail = |sym: &str, msg: String| {
+                viol(ctx, "WeightedTreeIndex", W::NAME, sym, "history", msg, json!({"kind": "tree", "tree": TreeCase { wt: W::NAME.into(), ops: if ops.len() <= 400 { ops.clone() } else { vec![] } }}));
+            };
+            let back: WeightedTreeIndex<W> = match serde_json::to_value(&tree).map_err(|e| e.to_string()).and_then(|v| serde_json::from_value(v).map_err(|e| e.to_string())) {
+                Ok(b) => b,
+                Err(e) => {
+                    fail("deserialize_failed", format!("WeightedTreeIndex<{}> {} after {} mutations: {}", W::NAME, show(&model), muts, e));
+                    continue;
+                }
+            };
+            if back != tree {
+                fail("not_equal", format!("WeightedTreeIndex<{}> {} after {} mutations: round-tripped value != original", W::NAME, show(&model), muts));
+                continue;
+            }
+            if tree.is_valid() {
+                let seed = hseed(&[ctx.seed, k as u64, 0x5a]);
+                let (mut r1, mut r2) = (VRng::from_env(seed), VRng::from_env(seed));
+                for i in 0..64 {
+                    match (catch(|| tree.try_sample(&mut r1)), catch(|| back.try_sample(&mut r2))) {
+                        (Ok(a), Ok(b)) => {
+                            if format!("{:?}", a) != format!("{:?}", b) || r1.pos != r2.pos {
+                                fail("samples_differ", format!("WeightedTreeIndex<{}> {} after {} mutations: sample {} differs after the round trip", W::NAME, show(&model), muts, i));
+                                break;
+                            }
+                        }
+                        _ => break,
+                    }
+                }
+            }
+        }
+    }
+    one::<u8>(ctx);
+    one::<u32>(ctx);
+    one::<i64>(ctx);
+    one::<u64>(ctx); // (u128 values above u64::MAX are not representable in serde_json numbers)
+    one::<f32>(ctx);
+    one::<f64>(ctx);
 }
 
 // ---- replay ----------------------------------------------------------------------------------------
